@@ -407,18 +407,23 @@ def Host.accepts (k : HKey) (q : Req) : Bool :=
     | .static s => s == h
     | .dyn p => E.hostFind p h
 
-/-- The host-bound part of `HostMatcher::match_request` (regex tree first, then the static map). -/
+/-- One step of `for matcher in self.regex_tree_rule.find(host)`, specification level: the bucket of
+a pattern is consulted iff the pattern matches. -/
+def Host.dynPart (I : MOps) (h : String) (q : Req) (e : HKey × I.M) : List Route :=
+  match e.1 with
+  | .dyn p => if E.hostFind p h then I.matchReq e.2 q else []
+  | .static _ => []
+
+/-- The host-bound part of `HostMatcher::match_request` for `request.host() = Some(h)`
+(regex tree first, then `static_hosts.get(h)`). -/
+def Host.boundFor (I : MOps) (s : LState I HKey) (q : Req) (h : String) : List Route :=
+  s.map.flatMap (Host.dynPart E I h q) ++
+    ((alookup (HKey.static h) s.map).map (fun b => I.matchReq b q)).getD []
+
 def Host.matchBound (I : MOps) (s : LState I HKey) (q : Req) : List Route :=
   match q.host with
   | none => []
-  | some h =>
-    let routes := s.map.flatMap (fun e =>
-      match e.1 with
-      | .dyn p => if E.hostFind p h then I.matchReq e.2 q else []
-      | .static _ => [])
-    match alookup (HKey.static h) s.map with
-    | some b => routes ++ I.matchReq b q
-    | none => routes
+  | some h => Host.boundFor E I s q h
 
 /-- `HostMatcher::match_request`: the any-host bucket is consulted iff `always_match_any_host` or
 no host-bound route matched. -/
@@ -426,30 +431,43 @@ def Host.matchReq (I : MOps) (s : LState I HKey) (q : Req) : List Route :=
   let routes := Host.matchBound E I s q
   if E.alwaysAnyHost || routes.isEmpty then routes ++ I.matchReq s.any q else routes
 
-/-- `HostMatcher::trace` (tree trace at specification level: one `Regex` node per pattern below a
-synthetic root, children of a node = the traces of its bucket iff the pattern matched). -/
+/-- `for (host, matcher) in &self.static_hosts` of `HostMatcher::trace`. -/
+def Host.staticNode (I : MOps) (q : Req) (e : HKey × I.M) : Option Trace :=
+  match e.1 with
+  | .static h =>
+    some (if q.host == some h
+      then Trace.mk true true (I.len e.2) (.other "host_static") (I.trace e.2 q)
+      else Trace.mk false false (I.len e.2) (.other "host_static") [])
+  | .dyn _ => none
+
+/-- `tree_trace_to_trace` at specification level: one `Regex` node per pattern; its children are
+the traces of the bucket iff the pattern matched. -/
+def Host.dynNode (I : MOps) (h : String) (q : Req) (e : HKey × I.M) : Option Trace :=
+  match e.1 with
+  | .dyn p =>
+    some (Trace.mk (E.hostFind p h) true 1 (.other "regex")
+      (if E.hostFind p h then I.trace e.2 q else []))
+  | .static _ => none
+
+/-- The part of `HostMatcher::trace` inside `if let Some(host) = request.host()`. -/
+def Host.traceFor (I : MOps) (s : LState I HKey) (q : Req) (h : String) : List Trace :=
+  let nodes := s.map.filterMap (Host.dynNode E I h q)
+  let root := Trace.mk true true nodes.length (.other "regex") nodes
+  [Trace.mk true true nodes.length (.other "host_regex") [root]] ++
+    (if (alookup (HKey.static h) s.map).isNone
+     then [Trace.mk true false 0 (.other "host_static") []] else [])
+
+/-- The host-bound part of `HostMatcher::trace` (everything before the any-host fallback). -/
+def Host.traceBound (I : MOps) (s : LState I HKey) (q : Req) : List Trace :=
+  s.map.filterMap (Host.staticNode I q) ++
+    (match q.host with
+     | none => []
+     | some h => Host.traceFor E I s q h)
+
+/-- `HostMatcher::trace`: the any-host bucket is traced iff `always_match_any_host` or the traces so
+far list no route. -/
 def Host.trace (I : MOps) (s : LState I HKey) (q : Req) : List Trace :=
-  let statics := s.map.filterMap (fun e =>
-    match e.1 with
-    | .static h =>
-      some (if q.host == some h
-        then Trace.mk true true (I.len e.2) (.other "host_static") (I.trace e.2 q)
-        else Trace.mk false false (I.len e.2) (.other "host_static") [])
-    | .dyn _ => none)
-  let traces :=
-    match q.host with
-    | none => statics
-    | some h =>
-      let nodes := s.map.filterMap (fun e =>
-        match e.1 with
-        | .dyn p =>
-          let m := E.hostFind p h
-          some (Trace.mk m true 1 (.other "regex") (if m then I.trace e.2 q else []))
-        | .static _ => none)
-      let root := Trace.mk true true nodes.length (.other "regex") nodes
-      let traces := statics ++ [Trace.mk true true nodes.length (.other "host_regex") [root]]
-      if (alookup (HKey.static h) s.map).isNone
-      then traces ++ [Trace.mk true false 0 (.other "host_static") []] else traces
+  let traces := Host.traceBound E I s q
   if E.alwaysAnyHost || (routesOfList traces).isEmpty then traces ++ I.trace s.any q else traces
 
 def hostOps (I : MOps) : MOps := outerOps I Host.keysOf (Host.matchReq E I) (Host.trace E I)
